@@ -73,15 +73,16 @@ func c16RunSession(c c16Session) (wire []byte, sess *fbb.Session, err error, hun
 		s.AddAuxiliaryAddress(fbb.AddressFromString(a))
 	}
 	if c.HasCB {
-		idx := map[string]int{}
-		idx[fbb.AddressFromString(s.Mycall()).Addr] = 0
+		// (keyed by the whole address: two addresses may share the Addr part and differ in Proto)
+		idx := map[fbb.Address]int{}
+		idx[fbb.AddressFromString(s.Mycall())] = 0
 		for i, a := range c.Aux {
-			if _, dup := idx[fbb.AddressFromString(a).Addr]; !dup {
-				idx[fbb.AddressFromString(a).Addr] = i + 1
+			if _, dup := idx[fbb.AddressFromString(a)]; !dup {
+				idx[fbb.AddressFromString(a)] = i + 1
 			}
 		}
 		s.SetSecureLoginHandleFunc(func(addr fbb.Address) (string, error) {
-			i := idx[addr.Addr]
+			i := idx[addr]
 			if c.PwErr[i] {
 				return c.Pw[i], errors.New("no password")
 			}
@@ -130,7 +131,7 @@ func runC16(ctx *Ctx) error {
 	if !bytes.Equal(salt, fbb.VerifWinlinkSecureSalt()) {
 		res.Count("salt-differs-from-published")
 	}
-	res.Rule = "cases: (a) byte strings -> crypto/md5 vs model md5; (b) (challenge,password) -> secureLoginResponse vs model vs independent recipe; (c) slave Session answering a scripted ;PQ handshake vs model send_handshake. Non-trivial: (b),(c) with non-empty challenge; distinct by input tuple."
+	res.Rule = "cases: (a) byte strings -> crypto/md5 vs model md5; (b) (challenge,password) -> secureLoginResponse vs model vs independent recipe; (c) slave Session answering a scripted ;PQ handshake vs model send_handshake (auxiliary addresses incl. ones that share the Addr part and differ in Proto, each with its own password). Non-trivial: (b),(c) with non-empty challenge; distinct by input tuple."
 
 	// ---- (a) md5 ----
 	var lines []string
@@ -219,11 +220,17 @@ func runC16(ctx *Ctx) error {
 				c.Aux = append(c.Aux, r.StringFrom("abcdefgh", 3)+"@"+r.StringFrom("abcdefgh", 4)+".org")
 			}
 		}
+		if i%7 == 3 {
+			// addresses that share the Addr part and differ in Proto (each with a password of its own):
+			// the session's own call sign under another protocol, and one name under two protocols
+			n := r.StringFrom("abcdefgh", 4)
+			c.Aux = append(c.Aux, "SMTP:"+strings.ToUpper(c.Mycall), "X:"+n, "Y:"+n)
+		}
 		// distinct aux addresses (callback is keyed by address)
-		seen := map[string]bool{fbb.AddressFromString(strings.ToUpper(c.Mycall)).Addr: true}
+		seen := map[fbb.Address]bool{fbb.AddressFromString(strings.ToUpper(c.Mycall)): true}
 		var aux []string
 		for _, a := range c.Aux {
-			k := fbb.AddressFromString(a).Addr
+			k := fbb.AddressFromString(a)
 			if !seen[k] {
 				seen[k] = true
 				aux = append(aux, a)
